@@ -43,7 +43,7 @@ CTX = Ctx()
 
 SCHEMES = ["explicit_euler", "generalized_rush_larsen", "forward_explicit_euler",
            "forward_generalized_rush_larsen", "hybrid_rush_larsen"]
-NAMES = ["m", "cell", "model_2", "cell.v2"]
+NAMES = ["m", "cell", "model_2", "cell.v2", "my model", "Cell-\u03b1"]
 DAMAGE = ["delete", "empty", "truncate", "truncate", "flip", "flip", "badutf8", "badutf8", "latin1", "dir", "dup_tail", "crlf", "bom"]
 ARMS = [("read_eio", "model"), ("read_eacces", "model"), ("vanish", "model"), ("vanish_at_open", "model"), ("read_eio", "config"),
         ("read_eacces", "config"), ("write_enospc", "output"), ("write_partial", "output")]
@@ -87,6 +87,11 @@ def build_machine():
                                                  "to": st.sampled_from([".c", ".h"])}),
     })
 
+    def some(elems, min_size=1, max_size=3):
+        """Mostly duplicate-free lists; one in four may repeat an element (`--scheme X --scheme X`)."""
+        u = st.lists(elems, min_size=min_size, max_size=max_size, unique=True)
+        return st.one_of(u, u, u, st.lists(elems, min_size=min_size, max_size=max_size))
+
     @st.composite
     def invocation(draw):
         """Abstract invocation; the file it targets is resolved against the world's
@@ -99,9 +104,9 @@ def build_machine():
         o = {}
         if cmd != "cellml2ode":
             if draw(st.booleans()):
-                o["scheme"] = draw(st.lists(st.sampled_from(SCHEMES), min_size=1, max_size=3, unique=True))
+                o["scheme"] = draw(some(st.sampled_from(SCHEMES)))
             if draw(st.integers(0, 3)) == 0:
-                o["stiff"] = draw(st.lists(st.sampled_from(stiff_pool), min_size=1, max_size=3, unique=True))
+                o["stiff"] = draw(some(st.sampled_from(stiff_pool)))
             if draw(st.integers(0, 2)) == 0:
                 o["delta"] = draw(st.sampled_from([1e-8, 1e-6, 0.001, 0.5]))
             if draw(st.integers(0, 2)) == 0:
